@@ -212,6 +212,23 @@ def run(ctx):
                                    [(w, gidx(w, g)) for w, g in seq],
                                    [(t[:12], (v or "None")[:6]) for t, v in pairs]),
                                "datagram": "", "err": err, "rest": [], "norerun": True})
+    # a signer the receiver has no current key for: a transferable signer id (kinds D, E) that is not in the receiver's keep.
+    # The grams are exactly what that signer rent; with required signatures nothing of the memo may be delivered
+    for (code, auth) in c20.codes():
+        if not auth:
+            continue
+        for curt in (False, True):
+            for signer in ("D", "E"):
+                memo, grams = grams_for(code, True, curt, signer)
+                for order in ("in-order", "zeroth-last"):
+                    rx = c20.mk(code, True, signer="B")         # its keep holds the key of the "B" signer only
+                    seq = list(grams) if order == "in-order" else list(grams[1:]) + [grams[0]]
+                    out, err = feed(rx, seq, memo)
+                    ctx.case((code, curt, "unknown-signer", signer, order))
+                    traces.append([{"cls": "unverifiable", "out": out}])
+                    detail.append({"code": code, "auth": True, "curt": curt, "gram": 0, "mutation": "signer %s unknown to the receiver, %s" % (signer, order),
+                                   "datagram": seq[0].hex(), "err": err, "rest": [x.hex() for x in seq[1:]], "memo": memo, "signer": "B",
+                                   "unverifiable": True})
     # random datagrams
     for auth in (False, True):
         code = c20.codes()[2 if auth else 0][0]
@@ -236,7 +253,8 @@ def run(ctx):
             if v["maxl"] != 2:
                 d, e = detail[i], traces[i][0]
                 what = d["err"] if e["out"] == "raised" else (
-                    "an intact gram was %s" % e["out"] if e["cls"] == "intact" else "a memo with altered content was delivered although signatures are required")
+                    "an intact gram was %s" % e["out"] if e["cls"] == "intact" else
+                    "a memo whose claimed signer has no key at the receiver was delivered" if e["cls"] == "unverifiable" else "a memo with altered content was delivered although signatures are required")
                 ctx.violation("%s gram %s of code %s (%s headers), %s: %s" % (
                     "signed" if d["auth"] else "unsigned", d["gram"], d["code"], "binary" if d["curt"] else "base64", d["mutation"], what),
                     {"detail": d})
@@ -264,4 +282,6 @@ def replay_case(ctx, case):
         return [err]
     if d["auth"] and out == "delivered-altered":
         return ["altered memo delivered"]
+    if d.get("unverifiable") and out.startswith("delivered"):
+        return ["a memo whose claimed signer has no key at the receiver was delivered"]
     return []
